@@ -60,6 +60,17 @@ func verifPlant(root, rel string) {
 // verifPlantInside (native replay only) creates the requested file under the
 // root, so that "is it served?" does not depend on the sandbox's fixed files.
 func verifPlantInside(root, rel string) {
+	if strings.HasSuffix(rel, "/") {
+		// a request for a directory: give it an index page, which is not a file with an allowed extension
+		dir := filepath.Join(root, rel)
+		if dir != root && strings.HasPrefix(dir, root+string(filepath.Separator)) {
+			if st, err := os.Stat(dir); err != nil || st.IsDir() {
+				_ = os.MkdirAll(dir, 0o755)
+				_ = os.WriteFile(filepath.Join(dir, "index.html"), []byte("INDEXPAGE"), 0o644)
+			}
+		}
+		return
+	}
 	target := filepath.Join(root, rel)
 	if target == root || !strings.HasPrefix(target, root+string(filepath.Separator)) {
 		return
@@ -124,10 +135,24 @@ func verifHarness_C17_static() {
 			req.URL.RawPath = p
 		}
 	}
+	expect := ""
 	if !verifSymbolic() {
 		verifPlant(root, strings.TrimPrefix(req.URL.Path, prefix))
 		verifPlant(root, req.URL.Path)
 		verifPlantInside(root, strings.TrimPrefix(req.URL.Path, prefix))
+		if norm := verifSpecNorm(p, false); kind == 1 && strings.HasPrefix(norm, prefix+"/") {
+			// the file an allowed request names: the remainder of the normalised path
+			// (only plain names: net/http cleans dot segments and repeated slashes itself)
+			rel := norm[len(prefix)+1:]
+			if path.Clean("/"+rel) == "/"+rel && !strings.Contains(rel, "\x00") {
+				verifPlantInside(root, rel)
+				if st, err := os.Stat(filepath.Join(root, rel)); err == nil && st.Mode().IsRegular() {
+					if b, err := os.ReadFile(filepath.Join(root, rel)); err == nil {
+						expect = string(b)
+					}
+				}
+			}
+		}
 	}
 	rec := verifNewWriter()
 	verifEventsReset()
@@ -140,6 +165,10 @@ func verifHarness_C17_static() {
 			servedFile := rec.whStatus == 200 && (body == "INSIDE" || body == "css" || body == "js" || body == "txt")
 			want := regexp.MustCompile(`^` + regexp.QuoteMeta(prefix) + `/.+\.(?:` + exts + `)$`).MatchString(verifSpecNorm(p, false))
 			verifAssert(!servedFile || want, "StaticFiles serves only request paths that end in an allowed extension")
+			verifAssert(!strings.Contains(body, "INDEXPAGE") && !strings.Contains(body, "<pre>"), "StaticFiles never serves an index page or a directory listing")
+			if want && expect != "" {
+				verifAssert(rec.whStatus == 200 && body == expect, "StaticFiles answers an allowed request path with the file named by the captured remainder")
+			}
 		}
 		return
 	}
@@ -176,8 +205,11 @@ func verifHarness_C17_static() {
 		want := regexp.MustCompile(`^` + regexp.QuoteMeta(prefix) + `/.+\.(?:` + exts + `)$`).MatchString(verifSpecNorm(p, false))
 		verifAssert(verifIff(served > 0, want), "StaticFiles serves exactly the request paths that end in an allowed extension")
 		if served > 0 {
+			// (the file server cleans "/"+name itself, so one leading slash makes no difference)
 			handed := verifEventStr(0, 1)
-			verifAssert(prefix+"/"+handed == verifSpecNorm(p, false), "the name handed to the file server is the captured remainder")
+			norm := verifSpecNorm(p, false)
+			verifAssert(verifOr(prefix+"/"+handed == norm, prefix+handed == norm), "the name handed to the file server is the captured remainder")
+			verifAssert(len(handed) == 0 || handed[len(handed)-1] != '/', "StaticFiles never asks the file server for a directory")
 		}
 	}
 	if served > 0 {
